@@ -654,6 +654,20 @@ pub fn ts_prolog() -> String {
   collector
 }
 
+/// String constants are emitted between backticks with their backslash escapes kept as written,
+/// so only the characters that are special in a template literal alone need to be escaped.
+fn write_template_literal_content(collector: &mut String, content: &str) {
+  let mut escaped = false;
+  let mut chars = content.chars().peekable();
+  while let Some(c) = chars.next() {
+    if !escaped && (c == '`' || (c == '$' && chars.peek() == Some(&'{'))) {
+      collector.push('\\');
+    }
+    escaped = !escaped && c == '\\';
+    collector.push(c);
+  }
+}
+
 impl Sources {
   pub fn pretty_print(&self, heap: &Heap) -> String {
     let mut collector = ts_prolog();
@@ -663,7 +677,7 @@ impl Sources {
       collector.push_str("const GLOBAL_STRING_");
       collector.push_str(&i.to_string());
       collector.push_str(": _Str = [0, `");
-      collector.push_str(s.as_str(heap));
+      write_template_literal_content(&mut collector, s.as_str(heap));
       collector.push_str("` as unknown as number];\n");
       str_lookup_table.insert(*s, i);
     }
